@@ -87,7 +87,10 @@ namespace raptor
         }
         else
         {
-            first_local_col = 0;
+            // A rank without rows owns no columns: publish the end of the
+            // column range so that first_cols stays monotone and the owner
+            // search in form_col_to_proc never stops on an empty rank
+            first_local_col = global_num_cols;
             local_num_cols = 0;
         }
 
@@ -164,6 +167,7 @@ namespace raptor
         }
         else
         {
+            first_local_col = global_num_cols;
             local_num_cols = 0;
         }
 
